@@ -33,6 +33,11 @@ STD_READERS = ["fs::read", "fs::read_to_string", "fs::read_dir", "File::open", "
 ADDERS = ["Extend::extend", "Vec::extend_from_slice", "Vec::push", "Vec::append", "Vec::extend_from_within"]
 TRANSPARENT = ["Try::branch", "Result::map_err", "Result::unwrap", "Result::expect", "Context::context",
                "Context::with_context", "Option::unwrap", "Option::expect"]
+DROPPERS = ["Iterator::filter", "Iterator::filter_map", "Iterator::take", "Iterator::skip", "Iterator::take_while",
+            "Iterator::skip_while", "Iterator::step_by", "Iterator::map_while", "Iterator::nth", "Iterator::last",
+            "Iterator::find", "Iterator::find_map", "Iterator::min", "Iterator::max", "Iterator::next"]
+PRESERVING = ["ToOwned::to_owned", "Path::to_path_buf", "Clone::clone", "Into::into", "From::from", "AsRef::as_ref",
+              "Deref::deref", "Borrow::borrow", "PathBuf::from", "Path::new"]
 PARSE_STR = re.compile(r"<impl str>::parse|FromStr(<[^>]*>)?>?::from_str")
 STREAM_ADDERS = ["Extend::extend", "TokenStream::extend", "TokenStream::append_all", "TokenStreamExt::append_all"]
 
@@ -53,7 +58,7 @@ def _rv_operands(rv):
     return out
 
 
-def root(f, op):
+def root(f, op, trail=None):
     """Follow plain copies / moves / borrows / casts of a place back to the local (or argument) it names.
     -> ('arg', n, proj) | ('local', l, proj) | ('const', None, [])."""
     if "c" in op:
@@ -63,6 +68,8 @@ def root(f, op):
         return ("unknown", None, [])
     l, proj = p["l"], list(p.get("p", []))
     for _ in range(40):
+        if trail is not None:
+            trail.add(l)
         if 1 <= l <= f.argc:
             return ("arg", l, proj)
         ds = [x for x in f.defs.get(l, []) if x[2] != "partial"]
@@ -273,6 +280,29 @@ def r1_site(rep, st, f, call):
                     if some_t is not None and through and \
                             f.all_paths_pass(some_t, {h.bb} | set(oks) | set(readers), [e.bb for e in tracked]):
                         through.append(h.bb)
+        # between paths() and the append nothing drops or rewrites an element
+        for e in tracked:
+            pc, _ = back_slice(f, e.args[1])
+            pbs = {b for b, p in pc.items() if p.matches("PackageSourceMap::paths")}
+            down = [y for b, y in pc.items() if b not in pbs and
+                    any(pbs & set(back_slice(f, a)[0]) for a in y.args)]
+            drops = [y for y in down if y.matches(DROPPERS) and y.bb not in through]
+            rep.ob("R32.1", f"{nm}: no path of paths() is dropped before the append", not drops,
+                   f"{[y.callee for y in drops]}", f.loc(e.bb))
+            for y in down:
+                if not y.matches("Iterator::map") or len(y.args) < 2:
+                    continue
+                k, l, _ = root(f, y.args[1])
+                d = single_def(f, l) if k == "local" else None
+                cl = f.crate.fns.get(d[3].get("closure")) if d and d[2] == "assign" and d[3]["k"] == "agg" else None
+                if cl is None:
+                    rep.ob("R32.1", f"{nm}: the mapping applied to paths() is a closure that can be inspected", False,
+                           "", f.loc(y.bb))
+                    continue
+                rep.saw(cl)
+                other = [z for z in cl.calls() if not z.matches(PRESERVING)]
+                rep.ob("R32.1", f"{nm}: the mapping applied to paths() only converts the path (to_owned / clone / into)",
+                       not other, f"{[z.callee for z in other]}", cl.loc())
         for sw, t in success_edges(f, call):
             ok = bool(through) and f.all_paths_pass(t, set(oks) | set(readers), through)
             rep.ob("R32.1", f"{nm}: every path from a successful read to Ok / to the next read appends its paths()", ok,
@@ -414,8 +444,9 @@ def r3(rep, c, st):
         op = rv["ops"][rv["fields"].index("files")]
         proj_all = []
         call = None
+        trail = set()
         for _ in range(10):
-            k, l, proj = root(f, op)
+            k, l, proj = root(f, op, trail)
             proj_all = proj + proj_all
             d = single_def(f, l) if k == "local" else None
             if not d or d[2] != "call":
@@ -431,6 +462,12 @@ def r3(rep, c, st):
             fields[-1] == f".{next(iter(slots))}"
         rep.ob("R32.3", f"Config.files in {where} is the tracked slot of parse_source's result", ok,
                f"source call {call.callee if call else None}, projections {proj_all}, tracked slot {sorted(slots)}", f.loc(b))
+        muts = [bb for bb in sorted(f.live) for s_ in f.stmts(bb)
+                if s_["k"] == "=" and s_["rv"]["k"] in ("ref", "rawptr") and s_["rv"]["p"]["l"] in trail and
+                (s_["rv"].get("m") or s_["rv"]["k"] == "rawptr")]
+        rep.ob("R32.3", f"{where}: the list is not modified between parse_source and Config", not muts,
+               "the vector returned by parse_source is borrowed mutably before it is stored in Config.files",
+               f.loc(muts[0]) if muts else f.loc(b))
     rep.ob("R32.3", "Config is constructed only in its Parse impl", all(f.d.get("trait", "") and "Parse" in f.d["trait"]
                                                                       for f, _, _ in ctor), "", "")
     callers = [f for f in c.fns.values() if f.calls("parse_source") and any(
